@@ -1,4 +1,6 @@
 def run(ctx):
     from . import factorize_proofs
 
-    return factorize_proofs.run(ctx, ["cut_right", "cut_left", "ravel2", "ravel3", "factorize"])
+    from . import lazyfact_proofs
+
+    return factorize_proofs.run(ctx, ["cut_right", "cut_left", "ravel2", "ravel3", "factorize"]) + " " + lazyfact_proofs.run(ctx, "C07")
